@@ -149,6 +149,9 @@ pub struct Host {
     /// byte hosts: the request that was last given each id, and its kind
     owner: BTreeMap<u32, Path>,
     owner_kind: BTreeMap<u32, u8>,
+    /// direct host: an inspection (`effects()` / `events()` / `is_done()`) returned while the command
+    /// still had runnable work - found by inspecting it again at once (see `settle_direct`)
+    pub unsettled: Option<String>,
 }
 
 impl Host {
@@ -160,7 +163,7 @@ impl Host {
             HostKind::BridgeBincode => Inner::Byte(Byte::Bin(Bridge::new(Core::new()))),
             HostKind::BridgeJson => Inner::Byte(Byte::Json(BridgeWithSerializer::new(Core::new()))),
         };
-        Host { kind, uni, inner, typed: BTreeMap::new(), ids: BTreeMap::new(), outstanding_ids: vec![], max_id: 0, id_reused_after_release: false, released: vec![], owner: BTreeMap::new(), owner_kind: BTreeMap::new() }
+        Host { kind, uni, inner, typed: BTreeMap::new(), ids: BTreeMap::new(), outstanding_ids: vec![], max_id: 0, id_reused_after_release: false, released: vec![], owner: BTreeMap::new(), owner_kind: BTreeMap::new(), unsettled: None }
     }
 
     pub fn can_drop(&self) -> bool {
@@ -221,6 +224,7 @@ impl Host {
             let mut progressed = false;
             let Inner::Direct { roots, model, queue } = &mut self.inner else { unreachable!() };
             let mut effects = vec![];
+            let mut unsettled: Option<String> = None;
             // a task of one command may wake a task of another (task-to-task channels): a pass during
             // which any traced task ran is followed by another one
             let before = self.uni.sink.len();
@@ -253,6 +257,19 @@ impl Host {
                         let _ = c.is_done();
                     }
                 }
+                // An inspection runs the command until nothing in it is runnable: inspecting it again
+                // at once - nothing has happened in between - must poll no task and yield nothing.
+                // (The loop around this pass would otherwise finish silently what a truncated run left undone.)
+                let mark = self.uni.sink.len();
+                let (again_fx, again_ev): (Vec<_>, Vec<_>) = (c.effects().collect(), c.events().collect());
+                if unsettled.is_none() && (!again_fx.is_empty() || !again_ev.is_empty() || self.uni.sink.len() != mark) {
+                    unsettled = Some(format!("runnable work left behind when the call returned: a command inspected directly was inspected again at once and {} ({} more effects, {} more events)", if self.uni.sink.len() != mark { "its tasks ran again" } else { "had more outputs" }, again_fx.len(), again_ev.len()));
+                }
+                effects.extend(again_fx);
+                queue.extend(again_ev);
+            }
+            if self.unsettled.is_none() {
+                self.unsettled = unsettled.take();
             }
             if !effects.is_empty() || self.uni.sink.len() != before {
                 progressed = true;
@@ -804,6 +821,9 @@ pub fn run_case(u: &Universe, cfg: &CaseCfg) -> Result<CaseInfo, CaseFail> {
             }
         }
         let mut fails = l1.check_call(&trace, &obs);
+        if let Some(u) = host.unsettled.take() {
+            fails.push(u);
+        }
         if let Err(e) = reference.replay(&witness_only(&trace)) {
             fails.push(e);
             let cancel_context = cancel_context || reference.world().cancellations != cancellations_before;
